@@ -330,6 +330,17 @@ impl ControlHandle {
     }
 }
 
+/// Returns an error if `[address, address + len)` exceeds the 64 bit address space.
+fn verify_range(address: u64, len: usize) -> ControlResult<()> {
+    if u128::from(address) + len as u128 > u128::from(u64::MAX) + 1 {
+        Err(ControlError::InvalidData(
+            "the range exceeds the 64 bit address space".into(),
+        ))
+    } else {
+        Ok(())
+    }
+}
+
 macro_rules! unwrap_or_log {
     ($expr:expr) => {{
         match $expr {
@@ -370,6 +381,7 @@ impl DeviceControl for ControlHandle {
 
     fn write(&mut self, address: u64, data: &[u8]) -> ControlResult<()> {
         unwrap_or_log!(self.assert_open());
+        unwrap_or_log!(verify_range(address, data.len()));
 
         // A single `WriteMem` command can't carry more than `u16::MAX - 8` bytes of data,
         // so larger data is split before it is chunked according to the maximum command length.
@@ -397,6 +409,7 @@ impl DeviceControl for ControlHandle {
 
     fn read(&mut self, mut address: u64, buf: &mut [u8]) -> ControlResult<()> {
         unwrap_or_log!(self.assert_open());
+        unwrap_or_log!(verify_range(address, buf.len()));
 
         // Reject a maximum acknowledge length that leaves no room for data.
         unwrap_or_log!(
